@@ -300,6 +300,7 @@ def main():
     ev['coverage'].update(extra_info or {})
     if a.tier == 'thorough' and REPO == '/repo' and not os.environ.get('SUPP_REPO') and not a.only and not os.environ.get('SUPP_VERIF_NO_SELFTEST'):
         ev['coverage']['self_tests'] = self_tests(prop)
+        ev['wall_s'] = round(time.time() - t0, 2)
     if not a.only and REPO == '/repo' and not os.environ.get('SUPP_VERIF_KEEP_EVIDENCE'):   # (set by tools/seed_*.py)
         os.makedirs(os.path.join(HERE, 'evidence'), exist_ok=True)
         with open(os.path.join(HERE, 'evidence', prop + '.json'), 'w') as f:
